@@ -26,11 +26,24 @@ never fails — so `div_wraps`/`mod_wraps` carry no hypothesis about the algorit
 
 Side conditions that are genuinely needed and why: the unrolled four-limb multiply needs `3 ≤ w`
 (its column sums must fit a double limb; it is instantiated for `w = 64` only) — `mul_wraps` asks
-`3 ≤ w ∨ n ≠ 4`; decimal text needs `10 < 2^w`; conversion to a built-in type of `b` bits needs
+`3 ≤ w ∨ n ≠ 4`; **`mul_wraps` also asks `n < 129`** (the schoolbook overload of `eval_mul_unary`): with 129
+limbs or more the Karatsuba overload runs, for which the property is *false* — Part 2b; decimal text needs `10 < 2^w`; conversion to a built-in type of `b` bits needs
 `b ≤ w ∨ w ∣ b` (the code's limb-ratio shortcut), true for all 8/16/32/64/128-bit types over 8/16/32/64-bit limbs.
 
-Not covered here (see the report): conversion to/from floating point, Karatsuba multiplication
-(≥ 129 limbs — compared by the harness against the schoolbook model, not transcribed), `operator~`
+Karatsuba multiplication (`≥ 129` limbs; inside the property's 65..2048-digit range that is 8-bit limbs and
+1056..2048 bits) — Part 2b.  The routine is transcribed with its memory (`Cnl.Wide.kara`, validated byte for byte
+against the real routine's result *and* scratch arrays).  `karatsuba_refuted` (kernel-checked, from a
+`wide_integer<1568, uint8_t>` witness) shows the full statement `KaratsubaCorrect` is false: when halving the
+limb count reaches an odd count above the schoolbook cutoff 48 (`karaOddSplit`), a limb of each operand is dropped
+and two limbs of the uninitialised result array are read; `karatsuba_indeterminate` shows the product then
+depends on what those arrays held.  Defect class `C10.karatsuba_odd_split` = `karaDefect n`
+(`karaDefect_instantiable`: exactly the limb counts 196, 204, …, 252 = 4·m, m odd, 49 ≤ m ≤ 63, i.e. 8-bit-limb
+widths 1568, 1632, 1696, 1760, 1824, 1888, 1952, 2016).  **Not proved**: `KaratsubaCorrectEvenSplit` (the
+Karatsuba overload is exact whenever no odd split occurs) is kept as a definition; for those instantiations the
+evidence is the differential harness (transcription ≡ implementation limb for limb, implementation ≡ exact
+arithmetic) and kernel-evaluated instances, which are tests, not theorems.
+
+Not covered here (see the report): conversion to/from floating point, `operator~`
 (does not compile for multi-limb `wide_integer`).
 -/
 namespace Cnl.C10
@@ -131,9 +144,18 @@ theorem sub_wraps {f : Fmt} {a b : Limbs} (hw : 1 ≤ f.w) (hn : 1 ≤ f.n) (ha 
     toInt f (opSub f.w a b) = wrapTwos f.N f.signed (toInt f a - toInt f b) :=
   (Arith.sub_toInt hw hn ha hb).1
 
-theorem mul_wraps {f : Fmt} {a b : Limbs} (hw : 1 ≤ f.w) (hn : 1 ≤ f.n) (h4 : 3 ≤ f.w ∨ f.n ≠ 4) (ha : Val f a) (hb : Val f b) :
+/-- `operator*` with fewer than 129 limbs (`hk`: the schoolbook overload of `eval_mul_unary`).  Not `_partial` by
+omission of a proof: for `129 ≤ n` the statement is false (`karatsuba_refuted`). -/
+theorem mul_wraps {f : Fmt} {a b : Limbs} (hw : 1 ≤ f.w) (hn : 1 ≤ f.n) (h4 : 3 ≤ f.w ∨ f.n ≠ 4) (hk : f.n < karaThreshold)
+    (ha : Val f a) (hb : Val f b) :
     toInt f (opMul f.w a b) = wrapTwos f.N f.signed (toInt f a * toInt f b) :=
-  (Arith.mul_toInt hw hn h4 ha hb).1
+  (Arith.mul_toInt hw hn h4 hk ha hb).1
+
+/-- the same whatever the (unused) local arrays hold -/
+theorem mul_wraps_any_init {f : Fmt} {a b : Limbs} (init : Limbs × Limbs) (hw : 1 ≤ f.w) (hn : 1 ≤ f.n) (h4 : 3 ≤ f.w ∨ f.n ≠ 4)
+    (hk : f.n < karaThreshold) (ha : Val f a) (hb : Val f b) :
+    toInt f (opMulWith f.w init a b) = wrapTwos f.N f.signed (toInt f a * toInt f b) :=
+  (Arith.mulWith_toInt init hw hn h4 hk ha hb).1
 
 /-- the Knuth routine meets what the sign-handling wrappers of `/` and `%` need -/
 theorem knuth_correct (f : Fmt) (hw : 1 ≤ f.w) :
@@ -192,12 +214,13 @@ theorem shr_floor {f : Fmt} {a : Limbs} {k : Int} {sgn : Bool} (hw : 1 ≤ f.w) 
 
 /-- all binary operators of `wide_integer op wide_integer` at once, against the spec's `specBin` -/
 theorem binOp_spec {f : Fmt} {a b : Limbs} (op : BinOp) (hop : op ≠ .shl ∧ op ≠ .shr) (hw : 1 ≤ f.w) (hn : 1 ≤ f.n)
-    (h4 : 3 ≤ f.w ∨ f.n ≠ 4) (ha : Val f a) (hb : Val f b) (hdiv : op = .div ∨ op = .mod → toInt f b ≠ 0) :
+    (h4 : 3 ≤ f.w ∨ f.n ≠ 4) (hk : op = .mul → f.n < karaThreshold) (ha : Val f a) (hb : Val f b)
+    (hdiv : op = .div ∨ op = .mod → toInt f b ≠ 0) :
     ∃ r, binOp f op a b = .ok r ∧ some (toInt f r) = specBin f.N f.signed op (toInt f a) (toInt f b) := by
   cases op with
   | add => exact ⟨_, rfl, by simp [specBin, exactBin, add_wraps hw hn ha hb]⟩
   | sub => exact ⟨_, rfl, by simp [specBin, exactBin, sub_wraps hw hn ha hb]⟩
-  | mul => exact ⟨_, rfl, by simp [specBin, exactBin, mul_wraps hw hn h4 ha hb]⟩
+  | mul => exact ⟨_, rfl, by simp [specBin, exactBin, mul_wraps hw hn h4 (hk rfl) ha hb]⟩
   | div =>
     have hb0 := hdiv (Or.inl rfl)
     obtain ⟨o, h, hq⟩ := div_wraps hw hn ha hb hb0
@@ -212,20 +235,111 @@ theorem binOp_spec {f : Fmt} {a b : Limbs} (op : BinOp) (hop : op ≠ .shl ∧ o
   | shl => exact absurd rfl hop.1
   | shr => exact absurd rfl hop.2
 
+/-! ## Part 2b — `operator*` with 129 limbs or more: the Karatsuba overload of `eval_mul_unary`
+
+`opMulWith w init a b` runs `Cnl.Wide.kara`, the transcription of `eval_multiply_kara_n_by_n_to_2n` with its
+in-place memory; `init` is what the two local arrays `result` (2n limbs) and `t` (4n limbs), which the C++
+declares without initialiser, hold on entry. -/
+
+/-- FULL statement (false): `*` is exact modulo `2^N` on the Karatsuba overload too, whatever the
+uninitialised local arrays hold -/
+def KaratsubaCorrect : Prop :=
+  ∀ (f : Fmt) (init : Limbs × Limbs) (a b : Limbs), 1 ≤ f.w → karaThreshold ≤ f.n → Val f a → Val f b →
+    toInt f (opMulWith f.w init a b) = wrapTwos f.N f.signed (toInt f a * toInt f b)
+
+/-- what is conjectured to hold and is NOT proved here: the Karatsuba overload is exact on every limb count
+whose repeated halving meets no odd count above the cutoff (all other instantiable counts in 129..256).
+Evidence: differential harness + `example`s below. -/
+def KaratsubaCorrectEvenSplit : Prop :=
+  ∀ (f : Fmt) (init : Limbs × Limbs) (a b : Limbs), 1 ≤ f.w → karaThreshold ≤ f.n → karaOddSplit f.n = false →
+    Val f a → Val f b →
+    toInt f (opMulWith f.w init a b) = wrapTwos f.N f.signed (toInt f a * toInt f b)
+
+/-- `wide_integer<1568, uint8_t>`: 196 limbs of 8 bits, unsigned; 196 → 98 → 49, and 49 > 48 is split 24 + 24 -/
+def fmt1568 : Fmt := ⟨8, 196, false⟩
+/-- `2^384`: the only non-zero limb is limb 48, the one the 49-limb level drops -/
+def w2p384 : Limbs := zeros 48 ++ [1] ++ zeros 147
+def wOne : Limbs := 1 :: zeros 195
+/-- every limb `0xFF` (`2^1568 − 1`) -/
+def wAllOnes : Limbs := List.replicate 196 255
+
+theorem fmt1568_defect : karaDefect fmt1568.n = true := by decide
+
+/-- `2^384 · 1 = 0` in `wide_integer<1568, uint8_t>` when the local arrays happen to be zero-filled -/
+theorem karatsuba_drops_limb : toNat 8 (opMulWith 8 ([], []) w2p384 wOne) = 0 ∧ toNat 8 w2p384 * toNat 8 wOne = 2^384 := by
+  decide +kernel
+
+/-- the full statement is refuted by that witness (kernel evaluation of the transcription) -/
+theorem karatsuba_refuted : ¬ KaratsubaCorrect := by
+  intro h
+  have hv : ∀ l : Limbs, l.length = 196 → (l.all (· < 2^8)) = true → Val fmt1568 l := by
+    intro l hl hall
+    refine ⟨?_, hl⟩
+    intro x hx
+    exact of_decide_eq_true (List.all_eq_true.mp hall x hx)
+  have := h fmt1568 ([], []) w2p384 wOne (by decide) (by decide) (hv _ (by decide +kernel) (by decide +kernel)) (hv _ (by decide +kernel) (by decide +kernel))
+  exact absurd this (by decide +kernel)
+
+/-- dense operands: `(2^1568 − 1)²` is wrong as well -/
+theorem karatsuba_refuted_dense :
+    toNat 8 (opMulWith 8 ([], []) wAllOnes wAllOnes) ≠ (toNat 8 wAllOnes * toNat 8 wAllOnes) % 2^(8 * 196) := by
+  decide +kernel
+
+/-- the product is not a function of the operands: the same `2^384 · 1` with the `result` array holding `0xA5`
+bytes on entry differs from the zero-filled run (the routine reads limbs it never wrote) -/
+theorem karatsuba_indeterminate :
+    opMulWith 8 (List.replicate 392 0xA5, []) w2p384 wOne ≠ opMulWith 8 ([], []) w2p384 wOne := by
+  decide +kernel
+
+/-- the clause "results do not depend on how the value is split into limbs" fails across the threshold: `2^384 · 1`
+as 49 limbs of 32 bits (schoolbook) is `2^384`, as 196 limbs of 8 bits (Karatsuba, zero-filled arrays) it is `0` -/
+theorem limb_split_dependent_product :
+    toNat 32 (opMul 32 (zeros 12 ++ [1] ++ zeros 36) (1 :: zeros 48)) = 2^384
+    ∧ toNat 8 (opMul 8 w2p384 wOne) = 0
+    ∧ toNat 32 (zeros 12 ++ [1] ++ zeros 36) = toNat 8 w2p384 ∧ toNat 32 (1 :: zeros 48) = toNat 8 wOne := by
+  decide +kernel
+
+/-- limb counts for which `uintwide_t` instantiates with 8-bit limbs: the width `8·n` must be `2^k·m`, `m ≤ 63` -/
+def instantiable8 (n : Nat) : Bool := (List.range 64).any fun m => (List.range 12).any fun j => n == 2^j * m
+
+/-- the defect class, listed: of the limb counts 129..256 that instantiate (8-bit limbs, widths 1032..2048 bits),
+exactly 4·m for odd m in 49..63 take an odd split — widths 1568, 1632, 1696, 1760, 1824, 1888, 1952, 2016 -/
+theorem karaDefect_instantiable :
+    ((List.range 257).filter fun n => instantiable8 n && karaDefect n) = [196, 204, 212, 220, 228, 236, 244, 252]
+    ∧ ((List.range 257).filter fun n => instantiable8 n && decide (karaThreshold ≤ n) && !karaDefect n)
+        = [132, 136, 140, 144, 148, 152, 156, 160, 164, 168, 172, 176, 180, 184, 188, 192, 200, 208, 216, 224, 232, 240, 248, 256] := by
+  decide +kernel
+
+/-- an odd split needs more than 48 limbs: below the Karatsuba threshold nothing is affected, and a power of two
+never is -/
+theorem karaDefect_needs_threshold (n : Nat) (h : n < karaThreshold) : karaDefect n = false := by
+  unfold karaDefect
+  simp [Nat.not_le.mpr h]
+
+-- tests (kernel-evaluated instances, not theorems about all inputs): even-split Karatsuba instantiations are exact
+-- wide_integer<1056, uint8_t>, 132 limbs (132 → 66 → 33): (0xFE…FE)², carries in every column
+example : toNat 8 (opMul 8 (List.replicate 132 0xFE) (List.replicate 132 0xFE))
+    = (toNat 8 (List.replicate 132 0xFE) * toNat 8 (List.replicate 132 0xFE)) % 2^(8 * 132) := by decide +kernel
+-- wide_integer<2048, uint8_t>, 256 limbs (→ 128 → 64 → 32), dirty arrays: (2^2048 − 1)² = 1 mod 2^2048
+example : toNat 8 (opMulWith 8 (List.replicate 512 0xA5, List.replicate 1024 0x5A) (List.replicate 256 255) (List.replicate 256 255)) = 1 := by
+  decide +kernel
+
 /-! ## Part 3 — results do not depend on how the value is split into limbs -/
 
 /-- two formats of the same width and signedness (say 8 limbs of 32 bits and 4 limbs of 64 bits), operands
-denoting the same integers: every binary operator yields the same integer -/
+denoting the same integers: every binary operator yields the same integer (`*`: both splits below the Karatsuba
+threshold — `limb_split_dependent_product` shows the clause fails across it) -/
 theorem limb_size_independent {f g : Fmt} {a b a' b' r r' : Limbs} (op : BinOp) (hop : op ≠ .shl ∧ op ≠ .shr)
     (hfw : 1 ≤ f.w) (hfn : 1 ≤ f.n) (hf4 : 3 ≤ f.w ∨ f.n ≠ 4) (hgw : 1 ≤ g.w) (hgn : 1 ≤ g.n) (hg4 : 3 ≤ g.w ∨ g.n ≠ 4)
+    (hfk : op = .mul → f.n < karaThreshold) (hgk : op = .mul → g.n < karaThreshold)
     (hN : f.N = g.N) (hs : f.signed = g.signed)
     (ha : Val f a) (hb : Val f b) (ha' : Val g a') (hb' : Val g b')
     (hva : toInt f a = toInt g a') (hvb : toInt f b = toInt g b')
     (hdiv : op = .div ∨ op = .mod → toInt f b ≠ 0)
     (hr : binOp f op a b = .ok r) (hr' : binOp g op a' b' = .ok r') :
     toInt f r = toInt g r' := by
-  obtain ⟨r1, e1, s1⟩ := binOp_spec op hop hfw hfn hf4 ha hb hdiv
-  obtain ⟨r2, e2, s2⟩ := binOp_spec op hop hgw hgn hg4 ha' hb' (fun h => hvb ▸ hdiv h)
+  obtain ⟨r1, e1, s1⟩ := binOp_spec op hop hfw hfn hf4 hfk ha hb hdiv
+  obtain ⟨r2, e2, s2⟩ := binOp_spec op hop hgw hgn hg4 hgk ha' hb' (fun h => hvb ▸ hdiv h)
   rw [hr] at e1; rw [hr'] at e2
   cases e1; cases e2
   rw [hN, hs, hva, hvb] at s1
